@@ -102,7 +102,14 @@ def command_events(ctx, thorough, only=None):
     if r["rc"] != 0 or not r["out"]:
         raise vlib.Inconclusive("reference obipairing run failed: " + r["err"][-400:])
     open(os.path.join(d, "ali.fq"), "wb").write(r["out"])
+    # a sample-annotated file (reference demultiplexing) for the reductions that work per sample
+    r = ctx.run_many([{"argv": [b("obimultiplex"), "--max-cpu", "1", "-t", sheet, "-e", "2", "ali.fq"], "cwd": d}], timeout=300)[0]
+    if r["rc"] != 0:
+        raise vlib.Inconclusive("reference obimultiplex run failed: " + r["err"][-400:])
+    open(os.path.join(d, "assigned.fq"), "wb").write(r["out"])
     funcs = [
+        ("obisummary", ["assigned.fq"]),
+        ("obicount", ["assigned.fq"]),
         ("obiconvert", ["--fasta-output", "ali.fq"]),
         ("obiconvert", ["--json-output", "ali.fq"]),
         ("obigrep", ["-l", "100", "-s", "ttag", "ali.fq"]),
